@@ -828,6 +828,8 @@ class ListBox(Widget, WidgetContainerMixin):
         """
         vt, va = normalize_valign(valign, ListBoxError)
         self.set_focus_valign_pending = vt, va
+        # the request is resolved by the next render: it must not be answered from the canvas cache
+        self._invalidate()
 
     def set_focus(self, position, coming_from: Literal["above", "below"] | None = None) -> None:
         """
